@@ -155,8 +155,7 @@ def run(run, only=None):
                "spec function cfg_weight (generalised inside algorithm on the original rules, exact closure) is the oracle; "
                "validated against derivation enumeration by vlib/spec self-check")
     if only != "bounded":
-        from props import C02_proved
-        C02_proved.proved(run)
+        common.run_proved(run, "C02")
     if only != "proved":
         bounded(run)
 
